@@ -271,7 +271,11 @@ impl Standin {
     pub fn exec(&self, conn: u64, c: &Cmd) -> RespVec {
         let reply = self.exec_inner(c);
         let seq = self.seq.fetch_add(1, Ordering::SeqCst);
-        self.log.lock().push(LogEntry { at: self.start.elapsed(), seq, conn, cmd: c.clone(), reply: reply.clone() });
+        let mut log = self.log.lock();
+        if log.len() % 200_000 == 199_999 && std::env::var("VERIF_DEBUG").is_ok() {
+            eprintln!("standin {} executed {} commands; latest: {} (virtual time {:?})", self.addr, log.len() + 1, show_cmd(c), self.start.elapsed());
+        }
+        log.push(LogEntry { at: self.start.elapsed(), seq, conn, cmd: c.clone(), reply: reply.clone() });
         reply
     }
 
@@ -644,11 +648,21 @@ static NEXT_CURSOR: AtomicU64 = AtomicU64::new(1);
 
 #[derive(Debug, Clone)]
 pub struct Msg {
+    /// free-form detail recorded with the trace entry (the epoch for SETCLUSTER)
+    pub detail: String,
     pub to: String,
     /// upper-case command name, `UMCTL:<SUB>` for control commands
     pub kind: String,
     pub conn: u64,
     pub is_reply: bool,
+}
+
+pub fn detail_of(c: &Cmd) -> String {
+    if c.len() > 3 && upper(&c[0]) == "UMCTL" && upper(&c[1]) == "SETCLUSTER" {
+        String::from_utf8_lossy(&c[3]).to_string()
+    } else {
+        String::new()
+    }
 }
 
 pub fn kind_of(c: &Cmd) -> String {
@@ -670,6 +684,8 @@ pub struct Gate {
     occurrences: Mutex<HashMap<(String, String), u64>>,
     /// log of every request that passed: (time, to, kind)
     pub trace: Mutex<Vec<(Duration, String, String)>>,
+    /// detail of each trace entry (same index)
+    pub details: Mutex<Vec<String>>,
     pub start: Mutex<Option<tokio::time::Instant>>,
     /// addresses that refuse connections / whose connections are cut
     pub down: Mutex<HashSet<String>>,
@@ -698,6 +714,14 @@ fn fnv(a: &str, b: &str) -> u64 {
 }
 
 impl Gate {
+    /// a harness marker in the trace (round boundaries etc.)
+    pub fn mark(&self, what: &str) {
+        let start = *self.start.lock().get_or_insert_with(tokio::time::Instant::now);
+        let mut tr = self.trace.lock();
+        tr.push((start.elapsed(), "-".to_string(), what.to_string()));
+        self.details.lock().push(String::new());
+    }
+
     pub fn hold(&self, kind: &str) {
         self.held.lock().insert(kind.to_string());
     }
@@ -727,6 +751,15 @@ impl Gate {
                 self.fault_hits.lock().push((m.kind.clone(), m.to.clone(), occ, f));
                 fault = Some(f);
             }
+            // wildcard target: the n-th message of this kind to anybody
+            let any = Msg { detail: String::new(), to: "*".to_string(), kind: m.kind.clone(), conn: m.conn, is_reply: false };
+            let occ_any = self.occurrence(&any);
+            if fault.is_none() {
+                if let Some(f) = self.faults.lock().remove(&(m.kind.clone(), "*".to_string(), occ_any)) {
+                    self.fault_hits.lock().push((m.kind.clone(), m.to.clone(), occ_any, f));
+                    fault = Some(f);
+                }
+            }
             loop {
                 if !self.held.lock().contains(&m.kind) {
                     break;
@@ -749,7 +782,10 @@ impl Gate {
                 tokio::time::sleep(Duration::from_micros(d as u64)).await;
             }
             let start = *self.start.lock().get_or_insert_with(tokio::time::Instant::now);
-            self.trace.lock().push((start.elapsed(), m.to.clone(), m.kind.clone()));
+            let mut tr = self.trace.lock();
+            tr.push((start.elapsed(), m.to.clone(), m.kind.clone()));
+            self.details.lock().push(m.detail.clone());
+            drop(tr);
         }
         fault
     }
@@ -920,7 +956,7 @@ async fn conn_task(net: Arc<Net>, id: u64, addr: String, target: Target, mut req
     match target {
         Target::Redis(s) => {
             while let Some(c) = req_rx.next().await {
-                let m = Msg { to: addr.clone(), kind: kind_of(&c), conn: id, is_reply: false };
+                let m = Msg { detail: detail_of(&c), to: addr.clone(), kind: kind_of(&c), conn: id, is_reply: false };
                 let fault = net.gate.pass(&m).await;
                 if net.gate.down.lock().contains(&addr) {
                     return; // connection cut
@@ -953,7 +989,7 @@ async fn conn_task(net: Arc<Net>, id: u64, addr: String, target: Target, mut req
                     match req_rx.next().await {
                         None => return,
                         Some(c) => {
-                            let m = Msg { to: addr.clone(), kind: kind_of(&c), conn: id, is_reply: false };
+                            let m = Msg { detail: detail_of(&c), to: addr.clone(), kind: kind_of(&c), conn: id, is_reply: false };
                             let fault = net.gate.pass(&m).await;
                             if p.dead.load(Ordering::SeqCst) || net.gate.down.lock().contains(&addr) {
                                 return;
@@ -1001,7 +1037,7 @@ async fn conn_task(net: Arc<Net>, id: u64, addr: String, target: Target, mut req
                                     return;
                                 }
                                 Some(c) => {
-                                    let m = Msg { to: addr.clone(), kind: kind_of(&c), conn: id, is_reply: false };
+                                    let m = Msg { detail: detail_of(&c), to: addr.clone(), kind: kind_of(&c), conn: id, is_reply: false };
                                     let fault = net.gate.pass(&m).await;
                                     if matches!(fault, Some(Fault::DropRequest)) {
                                         return;
